@@ -51,6 +51,7 @@ static void publish(int loc) {
 }
 static int locof(const void *p) { return p == LOC0 ? 0 : (LOC1 && p == LOC1) ? 1 : -1; }
 void ir2c_event_fence(const char *o) { (void)o; }
+void ir2c_event_stored(const void *p, const char *o) { (void)p; (void)o; }
 void ir2c_event_load(const void *p, const char *o) {
 #ifdef HB
 	int l = locof(p); if(l < 0) return;
